@@ -160,6 +160,89 @@ theorem gcDims_eq (gs : List Geom) : dims (.collection gs) = Gen.geometryCollect
   rw [e] at h
   exact h.symm
 
+/-- a loop `max = max.max(f x)` with the short cut `return OneDimensional`, over values that are never `TwoDimensional` -/
+theorem dimLoopOne {β : Type} (f : β → Dim) (xs : List β) (m : Dim) (hm : m ≠ .two) (hf : ∀ x ∈ xs, f x ≠ .two) :
+    (match Gen.loop (σ := Dim) (ρ := Dim) xs (fun g s =>
+        if (f g == .one) then .ret .one else .next (Dim.max s (f g))) m with
+      | .ret r => r
+      | .next s => s) = xs.foldl (fun (m : Dim) x => m.max (f x)) m := by
+  induction xs generalizing m with
+  | nil => simp [Gen.loop]
+  | cons q qs ih =>
+    have hq : f q ≠ .two := hf q (by simp)
+    have hqs : ∀ x ∈ qs, f x ≠ .two := fun x hx => hf x (by simp [hx])
+    simp only [Gen.loop, List.foldl_cons]
+    by_cases h : f q = .one
+    · simp only [h, beq_self_eq_true, if_true]
+      have hmax : m.max .one = .one := by cases m <;> first | rfl | exact absurd rfl hm
+      rw [hmax]
+      have : ∀ (l : List β), (∀ x ∈ l, f x ≠ .two) → l.foldl (fun (m : Dim) x => m.max (f x)) .one = .one := by
+        intro l
+        induction l with
+        | nil => intro _; rfl
+        | cons a t iht =>
+          intro hl
+          simp only [List.foldl_cons]
+          have ha : f a ≠ .two := hl a (by simp)
+          have : Dim.one.max (f a) = .one := by cases hfa : f a <;> first | rfl | exact absurd hfa ha
+          rw [this, iht (fun x hx => hl x (by simp [hx]))]
+      rw [this qs hqs]
+    · have hb : (f q == .one) = false := by simpa using h
+      simp only [hb, Bool.false_eq_true, if_false]
+      apply ih _ _ hqs
+      intro hc
+      cases m <;> cases hq' : f q <;> simp_all [Dim.max, Dim.rank]
+
+theorem lsBoundaryDims_ne_two (cs : List Pt) : lsBoundaryDims cs ≠ .two := by
+  unfold lsBoundaryDims
+  by_cases h : isClosedLS cs <;> simp [h]
+  cases lsDims cs <;> simp
+
+theorem boundaryOfDims_ne_two (d : Dim) : boundaryOfDims d ≠ .two := by cases d <;> simp [boundaryOfDims]
+
+theorem max_ne_two {a b : Dim} (ha : a ≠ .two) (hb : b ≠ .two) : a.max b ≠ .two := by
+  cases a <;> cases b <;> simp_all [Dim.max, Dim.rank]
+
+mutual
+theorem boundaryDims_ne_two : ∀ g : Geom, boundaryDims g ≠ .two
+  | .point _ => by simp [boundaryDims]
+  | .line a b => by by_cases h : a = b <;> simp [boundaryDims, h]
+  | .lineString cs => by simp only [boundaryDims]; exact lsBoundaryDims_ne_two cs
+  | .polygon q => by simp only [boundaryDims]; exact boundaryOfDims_ne_two _
+  | .multiPoint _ => by simp [boundaryDims]
+  | .multiLineString ls => by
+      simp only [boundaryDims]
+      split
+      · simp
+      · split <;> simp
+  | .multiPolygon ps => by simp only [boundaryDims]; exact boundaryOfDims_ne_two _
+  | .rect mn mx => by simp only [boundaryDims]; exact boundaryOfDims_ne_two _
+  | .triangle a b c => by simp only [boundaryDims]; exact boundaryOfDims_ne_two _
+  | .collection gs => by simp only [boundaryDims]; exact boundaryDimsList_ne_two gs
+theorem boundaryDimsList_ne_two : ∀ gs : List Geom, boundaryDimsList gs ≠ .two
+  | [] => by simp [boundaryDimsList]
+  | g :: gs => by
+      simp only [boundaryDimsList]
+      exact max_ne_two (boundaryDims_ne_two g) (boundaryDimsList_ne_two gs)
+end
+
+theorem foldl_max_boundaryDimsList (gs : List Geom) (m : Dim) :
+    gs.foldl (fun (m : Dim) g => m.max (boundaryDims g)) m = m.max (boundaryDimsList gs) := by
+  induction gs generalizing m with
+  | nil => cases m <;> rfl
+  | cons g gs ih => simp only [List.foldl_cons, ih, boundaryDimsList, Dim.max_assoc]
+
+/-- `GeometryCollection::boundary_dimensions`, the recursive call through the `Geometry` enum being `boundaryDims` itself -/
+theorem gcBoundaryDims_eq (gs : List Geom) :
+    boundaryDims (.collection gs) = Gen.geometryCollectionBoundaryDimensions boundaryDims gs := by
+  unfold Gen.geometryCollectionBoundaryDimensions
+  simp only [boundaryDims]
+  have h := dimLoopOne boundaryDims gs .empty (by decide) (fun x _ => boundaryDims_ne_two x)
+  rw [foldl_max_boundaryDimsList] at h
+  have e : Dim.empty.max (boundaryDimsList gs) = boundaryDimsList gs := by cases boundaryDimsList gs <;> rfl
+  rw [e] at h
+  exact h.symm
+
 theorem multiPoint_eq (ps : List Pt) :
     dims (.multiPoint ps) = Gen.multiPointDimensions ps ∧ isEmptyG (.multiPoint ps) = Gen.multiPointIsEmpty ps := by
   simp [dims, isEmptyG, Gen.multiPointDimensions, Gen.multiPointIsEmpty]
